@@ -28,6 +28,7 @@ type Scenario struct {
 	StopMid   bool   `json:"stopMid"`   // Stop + reopen after half of the imports
 	SetHeadTo int    `json:"setHeadTo"` // >=0: after all imports SetHead(n) (extended scope, judged separately)
 	Tail      int    `json:"tail"`      // linear: number of extra fork blocks near the tip
+	Fresh     int    `json:"fresh"`     // transfers to never-seen addresses per block (big states: multi-flush trie commits)
 	// Directed: a 2-block trunk, then an "old" branch of OldLen slow (low-difficulty) blocks imported first and a "new"
 	// branch of NewLen fast (high-difficulty) blocks from the same fork point: the shorter branch overtakes the longer.
 	Directed bool `json:"directed"`
@@ -64,7 +65,7 @@ type Built struct {
 
 func (s Scenario) Build() *Built {
 	r := hx.NewRng(s.TreeSeed)
-	t := chainx.NewTree(chainx.Opts{ForkFree: true, MinOffset: -9, MaxOffset: 400, WithTxs: true, WithContracts: s.Contracts})
+	t := chainx.NewTree(chainx.Opts{ForkFree: true, MinOffset: -9, MaxOffset: 400, WithTxs: true, WithContracts: s.Contracts, FreshTransfers: s.Fresh})
 	or := hx.NewRng(s.OrderSeed ^ 0x5ca1ab1e)
 	var order []int
 	switch {
